@@ -68,6 +68,10 @@ def main():
         status, dt, info = run_one(prop, p, tier)
         rows.append((prop, os.path.relpath(p, HERE), status, dt, info))
         print("%-4s %-55s %-14s %6.1fs  %s" % (prop, os.path.relpath(p, HERE), status, dt, info), flush=True)
+    if "--norecord" in sys.argv:
+        missed = [r for r in rows if r[2] != "DETECTED"]
+        print("%d/%d detected (not recorded)" % (len(rows) - len(missed), len(rows)))
+        return 0
     # record (merge) results for the DESIGN tables
     rec_path = os.path.join(HERE, "seeded" if "--seeded" in sys.argv else "mutants", "RESULTS.json")
     try:
